@@ -13,10 +13,26 @@ package durable
 //@   returns [C13] failure-removes-temp: (ret != nil && gRenameAt == 0 && gLastTemp != nil) ==> gRemoved[fileNameOf(gLastTemp)]
 //@   call os.(*File).Write requires [C13] writes-only-temp: c_recv == f && c_b == data
 
-//@ func durable.Mkdir props C13
+//@ func durable.Mkdir props C03 C13
 //@   init gOps == 0 && gMkdirAt == 0
 //@   init forall r Ref :: gSyncAt[r] == 0 && gCloseAt[r] == 0
 //@   returns [C13] new-dir-then-parent-synced: ret == nil ==> gMkdirAt > 0 && gMkdirPath == path && gSyncAt[f] > gMkdirAt && gSyncAt[parent] > gSyncAt[f] && gOpenPath[f] == path && gOpenPath[parent] == dirOf(path)
 
-//@ func durable.MkdirAll props C13
-//@   call durable.Mkdir requires [C13] parents-first: true
+//@ pure func cleanPath(p string) string
+//@ assume func filepath.Clean params path
+//@   ensures ret == cleanPath(path)
+//@ func durable.MkdirAll props C03 C13
+//@   init gMkdirAllOKs == 0
+//@   modifies gMkdirAllOKs
+//@   defines ret == nil ==> gMkdirAllOKs == old(gMkdirAllOKs) + 1
+//@   defines ret != nil ==> gMkdirAllOKs == old(gMkdirAllOKs)
+//@   call durable.MkdirAll requires [C03,C13] missing-ancestors-are-created-through-the-syncing-path: c_path == dirOf(cleanPath(old(path))) && c_perm == perm
+//@   call durable.Mkdir requires [C03,C13] leaf-is-created-through-the-syncing-mkdir: c_path == cleanPath(old(path)) && c_perm == perm
+//@   call durable.Mkdir requires [C03,C13] ancestors-first: (dirOf(cleanPath(old(path))) != cleanPath(old(path)) && dirOf(cleanPath(old(path))) != volumeName(cleanPath(old(path)))) ==> gMkdirAllOKs == 1
+//@ ghost var gMkdirAllOKs int
+//@ pure func volumeName(p string) string
+//@ assume func filepath.VolumeName params path
+//@   ensures ret == volumeName(path)
+// every directory this module creates goes through durable.Mkdir (which syncs the new directory and its parent)
+//@ census [C03,C13] no-unsynced-mkdirall: callers os.MkdirAll within none in durable ctlog witness
+//@ census [C03,C13] raw-mkdir-only-inside-the-syncing-wrapper: callers os.Mkdir within durable.Mkdir in durable ctlog witness
